@@ -58,7 +58,8 @@ func (s *SetWithTTL[T]) Contains(e T) bool {
 	if !ok {
 		return false
 	}
-	return item.After(s.Clock.Now())
+	// an item is still a member at its expiry instant, as in cleanup (and MapWithTTL)
+	return !item.Before(s.Clock.Now())
 }
 
 func (s *SetWithTTL[T]) cleanup() int {
